@@ -1,13 +1,15 @@
 use percent_encoding::{AsciiSet, CONTROLS};
 
 /// The [path percent-encode set] as defined in the WHATWG URL standard + `/` since
-/// we always encode single segments of the path.
+/// we always encode single segments of the path + `%` since the segments are arbitrary strings
+/// rather than already percent-encoded ones: `a%41` must not be decoded to `aA`.
 ///
 /// [path percent-encode set]: https://url.spec.whatwg.org/#path-percent-encode-set
 pub(crate) const PATH_PERCENT_ENCODE_SET: &AsciiSet = &CONTROLS
     .add(b' ')
     .add(b'"')
     .add(b'#')
+    .add(b'%')
     .add(b'<')
     .add(b'>')
     .add(b'?')
